@@ -158,5 +158,34 @@ def explicit_first(ctx, crate, crs, tag):
         skipped = bool(rel) and all(t is not None and i not in b.reachable([t], avoid=hdrs) for sb, t in rel)
         ctx.ob(R, b.key, "explicit-best-is-never-replaced-by-non-explicit", passes_guard and skipped, "%s:%s" % (b.file, s["line"]),
                "every path to a replacement of the best proposal passes `best.is_explicit && !is_explicit`, whose true side skips the requirement")
+    # --- which requiring solvables are considered at all: between the start of an iteration over requires_clauses and the
+    #     walk over that solvable's requirements, the only tests are on the best proposal, on the explicit flag and on the trail
+    #     (is the solvable installed); a test on any other solver state could hide an open root requirement from decide()
+    if outer:
+        oh, obody, onbb, ost, ont, oc = outer[0]
+        inner_loops = [l for l in for_loops(b, crs) if l[0] != oh and l[0] in obody]
+        if inner_loops:
+            first_inner = min(inner_loops, key=lambda l: l[0])
+            W = first_inner[0]
+            pre = b.reachable([ost], avoid=[W, oh])
+            nested = set()
+            for l in inner_loops:
+                nested |= set(l[1])
+            n = 0
+            for c in cs:
+                if c.bb not in pre or c.bb in nested or c.bb == oh:
+                    continue
+                if c in best_conds or (c.kind == "discr" and c.src_place is not None and
+                                       "PossibleDecision" in (c.src_place.get("ty") or b.local_ty(c.src_place["l"]))):
+                    continue
+                lv = q.leaves(b, b.blocks[c.bb]["term"]["d"])
+                flds = {x[6:] for x in lv if x.startswith("field:")}
+                bad = sorted(f for f in flds if f.split(".")[-1] not in ("requires_clauses", "decision_tracker"))
+                unk = sorted(x for x in lv if x.startswith("unknown:"))
+                n += 1
+                ctx.ob(R, b.key, "requirement-skipped-only-by-trail-or-flag#%d" % n, not bad and not unk, where_call(b, c.bb),
+                       "a requiring solvable is passed over only because of the explicit flag, the best proposal or its assignment "
+                       "(reads: %s)" % ", ".join(sorted(flds) + unk))
+            ctx.floor(R, "tests before a solvable's requirements are walked", n, 2)
     # early skip at the top of the outer loop (optimisation) must use the same two values
     ctx.count("flag_tests", len(flag_conds))
